@@ -367,6 +367,7 @@ def run(rep, tier):
     rejections(rep, asan, rng, names)
     fuzz(rep, asan, rng, gates, names, 1500 if quick else 60000)
     reuse_after_error(rep, asan, rng)
+    target_lists(rep, asan, rng, 600 if quick else 20000)
     memory_growth(rep, rng)
     asan.close()
     rep.cov['rule'] = ('A: structured circuits over every gate of the generated table (aliases, mixed case, tabs/spaces, comments, CRLF, '
@@ -596,6 +597,93 @@ def rss_kb(svh):
         if l.startswith('VmHWM'):
             return int(l.split()[1])
     return 0
+
+
+READER_MESSAGES = ['Expected a digit', 'Number too large', 'Target started with', 'Unrecognized target prefix', 'must be separated by spacing',
+                   'followed by a space instead of a qubit index']
+
+
+def target_lists(rep, asan, rng, count):
+    """tie H for TargetList.v: the extracted read_targets / write_targets against the real reader and printer, on target lists written
+    with irregular spacing, comments and deliberate malformations"""
+    def tok(kind):
+        v = rng.choice([0, 1, 5, 63, 64, 1000, 16777215])
+        if kind == 'q':
+            return str(v)
+        if kind == 'm':
+            return rng.choice(['', '!']) + str(v)
+        if kind == 'rec':
+            return 'rec[-%d]' % max(v, 1)
+        if kind == 'sweep':
+            return 'sweep[%d]' % v
+        return rng.choice(['', '!']) + rng.choice('XYZxyz') + str(v)
+
+    BAD = ['rec[-1', 'rec[1]', 'rec[-]', 'sweep[', 'sweep[3', 'X', '!', '!!0', '16777216', '99999999999', '0x1', 'Y 1', 'r', 's5', '-1', '0.5', '1e3', 'q0', '*', '**']
+    inp = []
+    meta = []
+    for _ in range(count):
+        gate, kinds = rng.choice([('H', ['q']), ('M', ['m']), ('MPP', ['p']), ('DETECTOR', ['rec']), ('CX', ['sweep', 'q']), ('CZ', ['rec', 'q']), ('R', ['q'])])
+        toks = []
+        if gate == 'MPP':
+            for _ in range(rng.choice([1, 2, 3])):
+                qs = rng.sample(range(40), rng.choice([1, 2, 3]))
+                prod = [rng.choice(['', '!']) + rng.choice('XYZ') + str(q) for q in qs]
+                star = rng.choice(['*', '*', ' *', '* ', ' * ', '\t*'])
+                toks.append(star.join(prod))
+        elif len(kinds) == 2:
+            for _ in range(rng.choice([1, 2])):
+                toks += [tok(kinds[0]), str(rng.randrange(0, 50) * 2 + 1)]
+        else:
+            toks = [tok(kinds[0]) for _ in range(rng.choice([0, 1, 2, 5]))]
+        mal = rng.random() < 0.35
+        if mal and toks:
+            k = rng.randrange(len(toks))
+            how = rng.choice(['glue', 'bad', 'bad', 'nospace'])
+            if how == 'glue' and k + 1 < len(toks):
+                toks[k:k + 2] = [toks[k] + toks[k + 1]]
+            elif how == 'nospace':
+                toks[k] = toks[k] + rng.choice(['X1', 'rec[-1]', '!2', 'sweep[0]'])
+            else:
+                toks[k] = rng.choice(BAD)
+        sep = lambda: rng.choice([' ', ' ', '  ', '\t', ' \t '])
+        body = ''.join(sep() + t for t in toks) + rng.choice(['', ' ', '\t', ' # note 1 2', '#x', '\r'])
+        text = gate + body + '\n'
+        inp.append('tgtread ' + (body + '\n').encode('latin1').hex())
+        meta.append((gate, text))
+    res = core.run_svm('\n'.join(inp) + '\n', timeout=1200)
+    for (gate, text), m in zip(meta, res):
+        try:
+            out = asan.request('cparse', ['string'], text.encode('latin1').hex())
+        except core.Crash as e:
+            rep.violation('Circuit parser (string)', classify(e), text, 'parser failed: ' + str(e) + e.stderr[-800:])
+            continue
+        impl_err = out[0] if out and out[0].startswith('ERR') else None
+        rep.count(('c07-t', text), nontrivial=m.startswith('OK') and ',' in m)
+        if m.startswith('ERR'):
+            if impl_err is None:
+                rep.violation('read_arbitrary_targets_into', 'accept-invalid', text,
+                              'the target list is rejected by the model of the reader (TargetList.read_targets) but the parser accepted it', 'ERR', out[0][:100])
+            continue
+        if not m.startswith('OK'):
+            rep.broken_obligation('TargetList-model-run', {'text': text, 'model': m})
+            continue
+        want, rest, written = [x.strip() for x in m[3:].split('|')]
+        if impl_err is not None:
+            if any(x in impl_err for x in READER_MESSAGES):
+                rep.violation('read_arbitrary_targets_into', 'reject-valid', text,
+                              'the model of the reader accepts this target list but the parser rejected it while reading targets: ' + impl_err[:200])
+            continue
+        got = parse_dump(out[1:])
+        tl = [str(t) for ins in got for t in ins[3]] if got else []
+        wl = [x for x in want.split(',') if x]
+        if tl != wl:
+            rep.violation('read_arbitrary_targets_into', 'wrong-result', text, 'parsed targets differ from the model of the reader', wl, tl)
+            continue
+        # printer: the implementation's text for this instruction is the gate name followed by write_targets of the model
+        printed = bytes.fromhex(out[0][3:]).decode('latin1').rstrip('\n')
+        if got and len(got) == 1 and not printed.startswith(got[0][0] + bytes.fromhex(written).decode('latin1')) and '(' not in printed:
+            rep.violation('write_targets', 'wrong-result', text, 'printed target list differs from the model of the printer',
+                          bytes.fromhex(written).decode('latin1'), printed)
 
 
 def replay(path):
